@@ -260,11 +260,12 @@ async fn run_async(c: PoolCase) -> (Vec<(String, String)>, BTreeMap<&'static str
     {
         let before = idle_open(&known);
         let times: Vec<(usize, Instant)> = known.iter().enumerate().filter_map(|(i, k)| k.idle_since.filter(|_| !k.session.is_closed()).map(|t| (i, t))).collect();
-        tokio::time::sleep(timeout + interval + Duration::from_secs(1)).await;
+        // (a timeout that cannot be added to anything never expires: a few ticks must change nothing)
+        tokio::time::sleep(timeout.checked_add(interval + Duration::from_secs(1)).unwrap_or(interval * 3 + Duration::from_secs(1))).await;
         let n = after_reaper(&mut known, &before, &times, &c, &mut problems, "final quiet period", 0).await;
         *seen.entry("reaper_closes_observed").or_insert(0) += n;
         let left = idle_open(&known).len();
-        if left > c.min_idle && !before.is_empty() {
+        if left > c.min_idle && !before.is_empty() && c.idle_timeout_s != u64::MAX {
             problems.push(("surplus_idle_sessions_never_closed".into(), format!("after idle_timeout + check_interval with nothing but reaper ticks, {left} idle sessions are still open (min_idle {})", c.min_idle)));
         }
         *seen.entry("quiet_periods").or_insert(0) += 1;
@@ -276,7 +277,8 @@ async fn run_async(c: PoolCase) -> (Vec<(String, String)>, BTreeMap<&'static str
 fn gen_case(rng: &mut Rng) -> PoolCase {
     let vals = [0u64, 1, 2, 5];
     let check_interval_s = *rng.pick(&[1u64, 2, 5]);
-    let idle_timeout_s = *rng.pick(&vals);
+    // now and then the largest timeout there is ("never expire")
+    let idle_timeout_s = if rng.chance(0.08) { u64::MAX } else { *rng.pick(&vals) };
     let min_idle = *rng.pick(&vals) as usize;
     let n = rng.usize(2, 24);
     let mut ops = Vec::new();
@@ -348,7 +350,7 @@ pub fn run_pool_level(ctx: Ctx) -> Report {
                     let mut dedup = std::collections::HashSet::new();
                     for (sym, det) in problems {
                         if dedup.insert(sym.clone()) {
-                            rep.violate("pool", &format!("timeout{}s_min{}", c.idle_timeout_s.min(9), c.min_idle.min(9)), &sym, det, c.describe());
+                            rep.violate("pool", &format!("timeout{}_min{}", if c.idle_timeout_s == u64::MAX { "_never".to_string() } else { format!("{}s", c.idle_timeout_s.min(9)) }, c.min_idle.min(9)), &sym, det, c.describe());
                         }
                     }
                 }
